@@ -78,6 +78,15 @@ def r_shift(ctx, which=('obtain_latters', 'obtain_formers'), with_latter=False):
                   inputs='every vertex', nontrivial=False)
         j = lv[0] if lv else ('iter', it, loop.id)
         check_closed_form(ctx, f, name, term, c, j, K, nd.lineno, 'succ' if name == 'obtain_latters' else 'pred')
+        # all four are listed: the append is not conditioned on anything inside the letter loop
+        inner = [(a, p) for a, p in ctx.conds(f, nd) if any(x[0] == 'iter' or x == c for x in walk_term(a))]
+        inner = [(a, p) for a, p in inner if a not in [a2 for a2, p2 in ctx.conds(f, loop)]]
+        run.check(not inner, 'R-SHIFT', f, 'all-four-listed', nd.lineno, 'one element per letter, unconditionally',
+                  "%s lists a neighbour only when %s: some of the four shift neighbours are omitted (a homopolymer vertex is its own "
+                  "%s), so `u precedes v` and `v succeeds u` no longer describe the same arcs"
+                  % (name, ' and '.join(('' if p else 'not ') + show(a)[:40] for a, p in inner),
+                     'successor' if name == 'obtain_latters' else 'predecessor'),
+                  inputs='the vertices AA..A, CC..C, GG..G, TT..T (every vertex for k = 1)')
     if with_latter:
         f = ctx.p.func('dsw.spiderweb.remove_nasty_arc')
         Kt = find_k_term(f)
